@@ -6,13 +6,14 @@
 using namespace vf;
 
 struct Segment { std::string bytes; bool flushAfter; };
-struct Stream { World w; std::vector<Segment> segs; bool tight; int slack; size_t replaced = 0; };
+struct Stream { World w; std::vector<Segment> segs; bool tight; int slack; size_t replaced = 0; bool decoy = false; };
 
 struct Obs { std::vector<std::string> events; std::string out; int flushes = 0; std::vector<std::string> queue; std::string pending, regs; std::vector<size_t> pendingProfile; std::string invariant; bool overrun = false; };
 
 // chunks: for each segment a list of chunk lengths (summing to the segment length)
 static Obs runChunked(const Stream &st, const std::vector<std::vector<size_t>> &chunks, size_t bufLen) {
-    Inst I(worldCfg(st.w, bufLen, 64));
+    InstCfg k8 = worldCfg(st.w, bufLen, 64); k8.decoy = st.decoy;      // a second instrument is fed every chunk first, then a lone CR (fixture.hpp)
+    Inst I(k8);
     Obs o;
     for (size_t si = 0; si < st.segs.size(); si++) {
         size_t pos = 0;
@@ -58,6 +59,7 @@ static Stream decode(Src &s) {
     }
     if (knownActive("C08-F1")) for (auto &sg : st.segs) st.replaced += neutraliseQuotedTerminators(sg.bytes);
     st.tight = s.coin(); st.slack = (int) s.range(0, 3);
+    st.decoy = s.prob(1, 8);
     return st;
 }
 static std::string describe(const Stream &st) {
